@@ -1,6 +1,8 @@
 package chk
 
 import (
+	"regexp"
+	"go/types"
 	"fmt"
 	"go/token"
 	"sort"
@@ -242,7 +244,12 @@ func runAddIndex(c *Ctx) {
 		// which comparison succeeded?
 		dupPK, dupIdx := false, ""
 		for _, e := range lp.Events {
-			if e.Kind != "call" || e.Name != "reflect.DeepEqual" {
+			// the same-key test: a call comparing the given columns with the key or with an index's columns (which
+			// comparison it has to be is the business of the `same-key test` obligations below)
+			if e.Kind != "call" || len(e.Args) != 2 || e.Args[1] != cols {
+				continue
+			}
+			if _, isVal := e.Instr.(ssa.Value); !isVal {
 				continue
 			}
 			res := t.Term(e.Instr.(ssa.Value), lp.PS)
@@ -300,6 +307,161 @@ func runAddIndex(c *Ctx) {
 		}
 		c.Check(len(problems) == 0, key, lp.Exit.Pos(), "addIndex %s", orStr(strings.Join(problems, "; "), "row holds on path ["+pathDesc(lp)+"]"))
 	}
+	runSameKey(c, fn)
+}
+
+// runSameKey: when are two UNIQUE / PRIMARY KEY constraints one key? SQLite (build.c, sqlite3CreateIndex) shares one
+// index between constraints that name the same columns under the same collations; it looks neither at the direction
+// nor at how a name is spelled. The test used by addIndex and setPK has to be that comparison; and a WITHOUT ROWID
+// primary key that takes over an earlier constraint's index keeps that index's columns (the table is stored in the
+// earlier constraint's directions).
+func runSameKey(c *Ctx, addIndex *ssa.Function) {
+	p := c.P
+	setPK := c.MustFunc("db", "(*Schema).setPK")
+	if setPK == nil {
+		return
+	}
+	isKeyCols := func(v ssa.Value) bool {
+		sl, ok := v.Type().Underlying().(*types.Slice)
+		return ok && typeIs(sl.Elem(), modPkgPath("db"), "IndexColumn")
+	}
+	for _, fn := range []*ssa.Function{addIndex, setPK} {
+		n := 0
+		for _, cs := range callsIn(fn) {
+			call, ok := cs.(*ssa.Call)
+			if !ok || len(call.Call.Args) != 2 {
+				continue
+			}
+			a0, a1 := stripMakeInterface(call.Call.Args[0]), stripMakeInterface(call.Call.Args[1])
+			if !isKeyCols(a0) || !isKeyCols(a1) {
+				continue
+			}
+			n++
+			key := fmt.Sprintf("same-key test in %s#%d", fn.Name(), n)
+			callee := call.Call.StaticCallee()
+			switch {
+			case callee == nil:
+				c.Undecided(key, call.Pos(), "the comparison is made through a function value")
+			case !p.InModule(callee):
+				c.Fail(key, call.Pos(), "constraints are compared with %s, which looks at every field of every column — direction and the spelling of names included: `PRIMARY KEY DESC UNIQUE`, `UNIQUE(a DESC, b), UNIQUE(a, b DESC)` or `UNIQUE(A), PRIMARY KEY(a)` are one key with one index in SQLite, and every automatic index after them is numbered accordingly", calleeName(p, call))
+			default:
+				why := sameKeyComparator(p, callee)
+				c.Check(why == "", key, call.Pos(), "constraints are compared by column (whatever the spelling) and collation, not by direction %s", why)
+			}
+		}
+		if n == 0 {
+			c.Undecided("same-key test in "+fn.Name(), fn.Pos(), "%s no longer compares the given columns with existing keys", fn.Name())
+		}
+	}
+	// setPK: on a take-over the key is the earlier index's column list
+	t := &Termer{P: p}
+	paths, ok := EnumLits(setPK.Blocks[0], 0, TabOpts{Termer: t, EventOf: callEvents(p)})
+	if !ok {
+		c.Undecided("setPK take-over", setPK.Pos(), "too many paths")
+		return
+	}
+	recv, cols := "p:"+setPK.Params[0].Name(), "p:"+setPK.Params[1].Name()
+	nTake := 0
+	for _, lp := range paths {
+		if lp.Exit == nil {
+			continue
+		}
+		took := ""
+		for _, e := range lp.Events {
+			if e.Kind != "call" || len(e.Args) != 2 || e.Args[1] != cols || !strings.HasSuffix(e.Args[0], ".Columns") {
+				continue
+			}
+			if v, isVal := e.Instr.(ssa.Value); isVal && lp.Has(t.Term(v, lp.PS), token.EQL, "true", true) {
+				took = e.Args[0]
+			}
+		}
+		if took == "" {
+			continue
+		}
+		nTake++
+		pk := eventsOf(lp, "store", "PK")
+		last := ""
+		if len(pk) > 0 {
+			last = pk[len(pk)-1].Val
+		}
+		c.Check(last == took && strings.HasPrefix(pk[len(pk)-1].Base, recv), "setPK take-over:"+pathSig(lp, 99), lp.Exit.Pos(), "a WITHOUT ROWID primary key that equals an earlier constraint takes over that constraint's index: the key recorded is that index's column list (%s), with its directions — the table is stored that way; recorded: %s", took, orStr(last, "nothing"))
+	}
+	if nTake == 0 {
+		c.Fail("setPK take-over", setPK.Pos(), "setPK never finds an earlier equivalent constraint")
+	}
+}
+
+func stripMakeInterface(v ssa.Value) ssa.Value {
+	if mi, ok := v.(*ssa.MakeInterface); ok {
+		return mi.X
+	}
+	return v
+}
+
+// sameKeyComparator: "" when fn (with the module functions it calls) compares two column lists by length, column name
+// without regard to case, and collation — and never reads a direction.
+func sameKeyComparator(p *Program, fn *ssa.Function) string {
+	seen := map[*ssa.Function]bool{}
+	var fns []*ssa.Function
+	var visit func(f *ssa.Function)
+	visit = func(f *ssa.Function) {
+		if seen[f] || len(fns) > 8 {
+			return
+		}
+		seen[f] = true
+		fns = append(fns, f)
+		for _, cs := range callsIn(f) {
+			if cal := cs.Common().StaticCallee(); cal != nil && p.InModule(cal) {
+				visit(cal)
+			}
+		}
+	}
+	visit(fn)
+	reads := map[string]int{}
+	foldsNames, lens := false, false
+	for _, f := range fns {
+		for _, in := range instrs(f) {
+			switch x := in.(type) {
+			case *ssa.FieldAddr:
+				if typeIs(x.X.Type(), modPkgPath("db"), "IndexColumn") {
+					reads[fieldName(x)]++
+				}
+			case *ssa.Field:
+				if typeIs(x.X.Type(), modPkgPath("db"), "IndexColumn") {
+					reads[fieldName(x)]++
+				}
+			case *ssa.Call:
+				if cal := x.Call.StaticCallee(); cal != nil && (isLibFunc(cal, "strings", "EqualFold") || isLibFunc(cal, "strings", "ToLower") || isLibFunc(cal, "strings", "ToUpper")) {
+					for _, a := range x.Call.Args {
+						if strings.HasSuffix((&Termer{P: p}).Term(a, emptyPS()), ".Column") {
+							foldsNames = true
+						}
+					}
+				}
+				if cal := x.Call.StaticCallee(); cal != nil && !p.InModule(cal) && cal.Pkg != nil && cal.Pkg.Pkg.Path() == "reflect" {
+					return "— it falls back on reflect." + cal.Name()
+				}
+			case *ssa.BinOp:
+				if x.Op == token.EQL || x.Op == token.NEQ {
+					lx, ly := (&Termer{P: p}).Term(x.X, emptyPS()), (&Termer{P: p}).Term(x.Y, emptyPS())
+					if strings.HasPrefix(lx, "len(p:") && strings.HasPrefix(ly, "len(p:") {
+						lens = true
+					}
+				}
+			}
+		}
+	}
+	switch {
+	case reads["SortOrder"] > 0:
+		return "— it reads SortOrder: constraints that differ only in direction are one key in SQLite"
+	case reads["Column"] < 2 || !foldsNames:
+		return "— column names are not compared without regard to case"
+	case reads["Collate"] < 2:
+		return "— collations are not compared"
+	case !lens:
+		return "— the number of columns is not compared"
+	}
+	return ""
 }
 
 func runPKCols(c *Ctx) {
@@ -460,7 +622,11 @@ func runSetKey(c *Ctx) {
 		c.Undecided("setKey loop", fn.Pos(), "not a single loop")
 		return
 	}
-	r, idx, key := "p:"+fn.Params[0].Name(), "p:"+fn.Params[1].Name(), "p:"+fn.Params[2].Name()
+	if len(fn.Params) != 3 {
+		c.Undecided("setKey loop", fn.Pos(), "setKey does not take (record, positions, key) any more")
+		return
+	}
+	r, idx, key := "p:"+p.KnownParam(fn, 0).Name(), "p:"+p.KnownParam(fn, 1).Name(), "p:"+p.KnownParam(fn, 2).Name()
 	n := 0
 	for _, lp := range paths {
 		if lp.Stop == nil {
@@ -514,7 +680,7 @@ func runSQLPass(c *Ctx) {
 }
 
 func glueRule() *Rule {
-	return &Rule{ID: "GLUE", Props: []string{"C01", "C02", "C03", "C04", "C08", "C19"}, Min: 24,
+	return &Rule{ID: "GLUE", Props: []string{"C01", "C02", "C03", "C04", "C08", "C19"}, Min: 20,
 		Doc: "wiring functions route the right values: the error-free event sequences of the select/open/lookup glue (which table, which columns, which rowid, which callback, which key) equal the confirmed table",
 		Run: runGlue}
 }
@@ -525,6 +691,12 @@ func runGlue(c *Ctx) {
 		want := glueTable[name]
 		fn := findFn(p, name)
 		if fn == nil {
+			// a function literal that became a named function or a method value: its enclosing function is still
+			// compared (it hands on `closure`), and what the adapter itself does is decided by the adapter rules
+			if i := strings.Index(name, "$"); i > 0 && findFn(p, name[:i]) != nil {
+				c.Info("anchor "+name, token.NoPos, "function literal %s is no longer a literal of %s; its enclosing function is compared, the adapter rules decide what it does", name, name[:i])
+				continue
+			}
 			c.Undecided("anchor "+name, token.NoPos, "wiring function %s not found", name)
 			continue
 		}
@@ -568,9 +740,14 @@ func runGlue(c *Ctx) {
 
 // glueSets splits rendered error-free paths "[c ∧ c] ev ; ev ⇒ results" into the set of conditions and the set of
 // events (stores into captured variables are internal data flow and left out).
+// reClosureName: which function literal (or bound method) is handed on is named after where it was written; what it
+// does is the business of the adapter rules (DONE-3, RANGE, CHOMP, ROWMAP), which find it through the call it is handed to.
+var reClosureName = regexp.MustCompile(`closure:[A-Za-z0-9_$.()*]+`)
+
 func glueSets(seqs []string) (conds, events map[string]bool) {
 	conds, events = map[string]bool{}, map[string]bool{}
 	for _, s := range seqs {
+		s = reClosureName.ReplaceAllString(s, "closure")
 		body := s
 		if i := strings.LastIndex(s, " ⇒ "); i >= 0 {
 			body = s[:i]
